@@ -1758,3 +1758,171 @@ func extraC18ConfigCopy(c *Ctx, r *Report) {
 	addMutants(Mutant{Prop: "C18", Name: "read-timeout-from-connection-timeout", File: "internal/adapter/proxy/factory.go", Rule: "C18-R11",
 		Old: "		sherpaConfig.ReadTimeout = config.GetReadTimeout()", New: "		sherpaConfig.ReadTimeout = config.GetConnectionTimeout()"})
 }
+
+// ---------- C11-R7: a provider's model listing is what the provider filter produced ----------
+func init() { registerExtra("C11", extraC11Listing) }
+
+func extraC11Listing(c *Ctx, r *Report) {
+	r.Rule("C11-R7", "a handler function that narrows a model list to one provider (it calls a filter taking the list and the provider name) returns that filter's result: it never returns the filter's input, i.e. there is no 'nothing matched, show everything healthy' fallback that would list other providers' models under the provider's prefix", 1)
+	isModelSlice := func(t types.Type) bool {
+		sl, ok := t.Underlying().(*types.Slice)
+		return ok && isNamed(sl.Elem(), pkgDomain, "UnifiedModel")
+	}
+	n := 0
+	for _, f := range c.Funcs {
+		if f.Parent() != nil || !strings.HasSuffix(fnPkgPath(f), pkgHandlers) {
+			continue
+		}
+		eachInstr(f, func(in ssa.Instruction) {
+			call, ok := in.(*ssa.Call)
+			if !ok {
+				return
+			}
+			g := call.Call.StaticCallee()
+			if g == nil || !strings.HasSuffix(fnPkgPath(g), pkgHandlers) || g == f {
+				return
+			}
+			// provider filter shape: (…, []*UnifiedModel, string) → ([]*UnifiedModel, …)
+			var input ssa.Value
+			hasStr := false
+			for i, p := range g.Params {
+				if isModelSlice(p.Type()) && i < len(call.Call.Args) {
+					input = call.Call.Args[i]
+				}
+				if p.Type().String() == "string" {
+					hasStr = true
+				}
+			}
+			if input == nil || !hasStr || g.Signature.Results().Len() == 0 || !isModelSlice(g.Signature.Results().At(0).Type()) {
+				return
+			}
+			if f.Signature.Results().Len() == 0 || !isModelSlice(f.Signature.Results().At(0).Type()) {
+				return
+			}
+			n++
+			key := fmt.Sprintf("%s:returns-result-of-%s", fname(f), cshort(g))
+			var contains func(v ssa.Value, d int) bool
+			contains = func(v ssa.Value, d int) bool {
+				if v == nil || d == 0 {
+					return false
+				}
+				if v == input {
+					return true
+				}
+				if phi, ok := v.(*ssa.Phi); ok {
+					for _, e := range phi.Edges {
+						if contains(e, d-1) {
+							return true
+						}
+					}
+				}
+				return false
+			}
+			bad := token.NoPos
+			for _, ret := range returnsOf(f) {
+				if reachAvoiding(in, ret, nil) && contains(retResult(ret, 0), 4) {
+					bad = retPos(f, ret)
+				}
+			}
+			if bad != token.NoPos {
+				r.Bad("C11-R7", key, bad, "after narrowing the model list to one provider the function can still return the un-narrowed list: a provider prefix then lists models that only other providers' endpoints serve")
+			} else {
+				r.OK("C11-R7", key, in.Pos(), "only the filter's result is returned")
+			}
+		})
+	}
+	if n == 0 {
+		r.Undecided("C11-R7", "provider-model-filter", token.NoPos, "no call of a (models, provider) filter found in the handlers")
+	}
+	addMutants(Mutant{Prop: "C11", Name: "listing-falls-back-to-all", File: "internal/app/handlers/handler_provider_common.go", Rule: "C11-R7",
+		Old: "	return providerModels, nil\n}", New: "	if len(providerModels) == 0 {\n		return healthyModels, nil\n	}\n	return providerModels, nil\n}"})
+}
+
+// ---------- C20-R11: slicing a fixed-size array by a runtime length is guarded ----------
+func init() { registerExtra("C20", extraC20ArraySlice) }
+
+func extraC20ArraySlice(c *Ctx, r *Report) {
+	r.Rule("C20-R11", "a slice expression arr[:n] / arr[lo:n] on a fixed-size array whose bound n is a runtime value (bytes read from a backend, a decoded length) is control-dependent on a comparison proving n <= len(arr): the stream buffer is configurable, so a final chunk larger than the fixed tail buffer must take the allocation fallback instead of panicking the proxy", 1)
+	n := 0
+	for _, f := range c.Funcs {
+		if !c.inRepo(f) {
+			continue
+		}
+		eachInstr(f, func(in ssa.Instruction) {
+			sl, ok := in.(*ssa.Slice)
+			if !ok || sl.High == nil {
+				return
+			}
+			pt, ok := sl.X.Type().Underlying().(*types.Pointer)
+			if !ok {
+				return
+			}
+			at, ok := pt.Elem().Underlying().(*types.Array)
+			if !ok {
+				return
+			}
+			if _, isK := sl.High.(*ssa.Const); isK {
+				return
+			}
+			// variadic argument packs and literals are compiler-made arrays sliced in full
+			if al, isAl := sl.X.(*ssa.Alloc); isAl && (al.Comment == "varargs" || al.Comment == "slicelit" || al.Comment == "complit") {
+				return
+			}
+			n++
+			key := fmt.Sprintf("%s:array[%d][:n]", fname(f), at.Len())
+			proved := false
+			for _, cf := range normFacts(condFacts(in.Block())) {
+				cb, ok := cf.Cond.(*ssa.BinOp)
+				if !ok {
+					continue
+				}
+				op := cb.Op
+				var k int64
+				switch {
+				case cb.X == sl.High:
+					v, ok := constInt(cb.Y)
+					if !ok {
+						continue
+					}
+					k = v
+				case cb.Y == sl.High:
+					v, ok := constInt(cb.X)
+					if !ok {
+						continue
+					}
+					k = v
+					op = map[token.Token]token.Token{token.LSS: token.GTR, token.GTR: token.LSS, token.LEQ: token.GEQ, token.GEQ: token.LEQ}[op]
+				default:
+					continue
+				}
+				if !cf.True {
+					op = map[token.Token]token.Token{token.LSS: token.GEQ, token.GEQ: token.LSS, token.GTR: token.LEQ, token.LEQ: token.GTR}[op]
+				}
+				if (op == token.LEQ && k <= at.Len()) || (op == token.LSS && k <= at.Len()+1) {
+					proved = true
+				}
+			}
+			if proved {
+				r.OK("C20-R11", key, in.Pos(), "bound checked against the array length")
+			} else {
+				r.Bad("C20-R11", key, in.Pos(), fmt.Sprintf("a fixed [%d]-element array is sliced up to a runtime length without a dominating test that the length fits: a larger value (a final chunk read into a bigger, configurable stream buffer) panics with slice bounds out of range", at.Len()))
+			}
+		})
+	}
+	if n == 0 {
+		r.Triv("C20-R11", "array-slices", token.NoPos, "no fixed-size array is sliced by a runtime bound")
+	}
+	addMutants(Mutant{Prop: "C20", Name: "tail-buffer-unchecked", File: "internal/adapter/proxy/olla/streaming_helpers.go", Rule: "C20-R11",
+		Old: "			if n <= len(state.lastChunkBuf) {", New: "			if n >= 0 {"})
+}
+
+func init() {
+	// a translated body that is not buffered for replay reaches the fail-over backend empty or truncated (C12)
+	registerExtra("C12", func(c *Ctx, r *Report) { extraBodyPreserver(c, r, "C12-R9") })
+	// the whole body is read through the size limiter before the first attempt: an over-limit chunked body is
+	// rejected before any backend is contacted (C17)
+	registerExtra("C17", func(c *Ctx, r *Report) {
+		r.WithAlias(map[string]string{"C01-R4": "C17-R7"}, func() { checkC01(c, r) })
+		extraBodyPreserver(c, r, "C17-R8")
+	})
+}
